@@ -775,6 +775,9 @@ class Array:
     def _eq_ne(self, op, other: Any) -> Array:
         if isinstance(other, (int, float, str, Bits)):
             return self._apply_op_to_all_elements(op, other, is_comparison=True)
+        if isinstance(other, (bytes, bytearray)) and self._dtype.return_type is bytes:
+            # For an Array of bytes a bytes object is the value of an item, not the data of another Array.
+            return self._apply_op_to_all_elements(op, bytes(other), is_comparison=True)
         if not isinstance(other, Array):
             other = self.__class__(self.dtype, other)
         return self._apply_op_between_arrays(op, other, is_comparison=True)
